@@ -27,6 +27,18 @@ CLAIMED = {
             'messages per packet in the codec round trip, queue <= 3 new + 2 resend messages (thorough 4+2) in the MTU lemma, '
             'tiny-message instances n in {2,255,256,300} (thorough up to 600); payload lengths free within the stated ranges.',
             'DESIGN.md §6 C09'),
+    'C06': ('The real send()/FragmentSender.build is executed on an opaque payload of symbolic length with a symbolic MTU: '
+            'the queued fragment bodies are proven (rope equality) to concatenate to the payload, each to fit a datagram, '
+            'payloads up to the limit to stay unfragmented and payloads above the fragmentation limit to be refused. '
+            'One reassembly step of the real _recvAppFragment from an arbitrary receiver context proves slot-written-once, '
+            'completion <=> all slots filled, delivered payload == concatenation, other ids untouched (hence order and '
+            'duplicate independence for histories of any length); an end-to-end scenario feeds the real sender\'s fragments '
+            'to the real receiver under every order-with-duplicates schedule within the bound; the re-queued fragment '
+            'after a timeout is proven byte-identical to the original.',
+            'Trusted: sx engine, rope equality (structural, sound for "equal"), struct model, clock model. Bounds: '
+            '<= 3 (thorough 8) fragments in the split lemma, <= 3 (thorough 6) slots in the step lemma, <= 3 fragments / 4 '
+            'deliveries (thorough 4/6) in the scenario. Context expiry (wall-clock based cleanup) is part of C05, not of this claim.',
+            'DESIGN.md §6 C06'),
 }
 
 NOT_YET = 'check not built yet in this round (planned: see DESIGN.md §6); not claimed'
